@@ -38,6 +38,7 @@ TOuterSub ==
     /\ C("subsample-has-documented-size", Cardinality(Sub) = Min2(SizeOf, Cardinality(Cands)))
     /\ C("selection-from-subsample", SetOf(Ev.q) \subseteq Sub)
     /\ C("selection-equals-wrapped-strategy-selection", Ev.q = inner.q)
+    /\ C("same-selection-without-return_utilities", Ev.qplain = Ev.q)
     /\ C("one-row-per-selected-sample", Len(Ev.rows) = Len(Ev.q) /\ Len(inner.rows) = Len(Ev.rows))
     /\ C("row-width", \A i \in DOMAIN Ev.rows : Len(Ev.rows[i]) = T.n)
     /\ C("nan-at-non-candidates",
